@@ -238,12 +238,18 @@ class Section(Entity):
     @link.setter
     def link(self, id_or_sec):
         if id_or_sec is None:
-            self._h5group.delete("link")
+            if "link" in self._h5group:
+                self._h5group.delete("link", delete_if_empty=False)
+            if self.file.auto_update_timestamps:
+                self.force_updated_at()
+            return
         if isinstance(id_or_sec, Section):
             sec = id_or_sec
         else:
-            rootsec = Section(self.file, self, self._h5group.h5root)
-            sec = rootsec.find_sections(filtr=lambda x: x.id == id_or_sec)
+            found = self.file.find_sections(filtr=lambda x: x.id == id_or_sec)
+            if not found:
+                raise KeyError("Section not found '{}'".format(id_or_sec))
+            sec = found[0]
 
         self._h5group.create_link(sec, "link")
         if self.file.auto_update_timestamps:
